@@ -82,7 +82,7 @@ pub(crate) fn answer_index_value(a: crate::table::AnswerIndex) -> usize {
     a.verif_value()
 }
 
-pub(crate) fn ev_table_new<I: Interner>(idx: TableIndex, table: &Table<I>) {
+pub(crate) fn ev_table_new<I: Interner>(idx: TableIndex, table: &Table<I>, big: bool) {
     if !enabled() {
         return;
     }
@@ -100,6 +100,7 @@ pub(crate) fn ev_table_new<I: Interner>(idx: TableIndex, table: &Table<I>) {
             .str("g", &fp(&table.table_goal.canonical.value))
             .bool("co", table.coinductive_goal)
             .bool("flo", table.is_floundered())
+            .bool("big", big)
             .raw("strands", &strands);
     });
 }
